@@ -23,13 +23,19 @@ def configs(tier):
     for kind in ("ode", "statio", "nonstatio"):
         for J0 in ((0, 1) if tier == "quick" else (0, 1, 2)):
             out.append(dict(kind=kind, J0=J0, d=(2 if kind == "statio" else 1), x64=True))
+        if kind == "nonstatio":       # the time store is full (the space store is not): a further step must not touch anything
+            out.append(dict(kind=kind, J0=2, d=1, time_first=True, full=True, x64=True))
+        if kind != "nonstatio":       # residual with two components: ranked by the sum of squares
+            out.append(dict(kind=kind, J0=0, d=(2 if kind == "statio" else 1), ncomp=2, x64=True))
     return out
 
 
 def run(cfg, R):
     from jinns.solver._rar import init_rar, trigger_rar
     kind, J0, d = cfg["kind"], cfg["J0"], cfg["d"]
-    data, loss, params, sizes = build(kind, 0, 1, d)
+    ncomp = cfg.get("ncomp", 1)
+    full = cfg.get("full", False)
+    data, loss, params, sizes = build(kind, 0, 1, d, ncomp=ncomp, time_first=cfg.get("time_first", False))
     data, t_, f_ = init_rar(data)
     stubs_ = __import__("vf.stubs", fromlist=["stubbed"])
     # reach the pre-state counters/probabilities by J0 real steps (concrete), then make the store contents symbolic
@@ -68,7 +74,7 @@ def run(cfg, R):
         shuf, batch = big.get_batch()
         return cands, res, post, shuf
 
-    name = f"{kind}/J0={J0}"
+    name = f"{kind}/J0={J0}" + (f"/ncomp{ncomp}" if ncomp > 1 else "") + ("/store-full" if full else "")
     # symbolic: the store contents, the PRNG key, the network and the equation parameters; everything else of the generator
     # (counters, probability masks, sizes, domain bounds -- arrays after a jitted step) is the concrete pre-state
     conc = lambda nm, l: nm.startswith("a_0_") and nm not in ("a_0_times", "a_0_omega", "a_0_key")
@@ -81,7 +87,19 @@ def run(cfg, R):
         if kind in ("statio", "nonstatio"): out["omega"] = (D_.omega, D_.p_omega)
         return out
 
+    def goals_full(A, O):
+        pre = A[0]
+        cands, res, post, shuf = O
+        G = []
+        for key_, (ntot, n0, sel) in sizes.items():
+            S0, p0 = stores(pre)[key_]; S1, p1 = stores(post)[key_]
+            G.append((f"{key_}: a store that cannot hold another full set is left untouched (active points are not overwritten)",
+                      tm.conj([eq(a, b) for a, b in zip(np.asarray(S1, dtype=object).flat, np.asarray(S0, dtype=object).flat)])))
+            G.append((f"{key_}: sampling probabilities unchanged when no step can be taken", tm.conj([eq(a, b) for a, b in zip(p1, p0)])))
+        return G
+
     def goals(A, O):
+        if full: return goals_full(A, O)
         pre = A[0]
         cands, res, post, shuf = O
         G = []
@@ -151,5 +169,5 @@ def run(cfg, R):
         n_eff = n0 + J0 * sel
         return [(f"{key_}: the first added point is always candidate 0", eq(cd.row_of(S1[n_eff, 0]), const(0, "Int")))]
 
-    R.check(name, tr, goals, twin_fn=twins, validate=False,
+    R.check(name, tr, goals, twin_fn=(None if full else twins), validate=False,
             key_fn=lambda p_, g: f"{kind}:" + g.split(":", 1)[-1].strip().split(" (")[0][:60].rstrip("0123456789 ,()"))
